@@ -2682,21 +2682,24 @@ func (m *machine) lowerFcopysign(instr *ssa.Instruction) {
 		signMask, opAnd, opOr = 0x80000000, sseOpcodeAndps, sseOpcodeOrps
 	}
 
+	// Extract the sign bits of rn.
 	signBitReg := m.c.AllocateVReg(x.Type())
 	m.lowerFconst(signBitReg, signMask, _64)
-	nonSignBitReg := m.c.AllocateVReg(x.Type())
-	m.lowerFconst(nonSignBitReg, ^signMask, _64)
-
-	// Extract the sign bits of rn.
 	and := m.allocateInstr().asXmmRmR(opAnd, rn, signBitReg)
 	m.insert(and)
+	// A register modified in place only holds its value as long as it stays in that register (a spilled one is stored
+	// once, after its definition), and the instructions below might need its register for a reload: move the result
+	// to a register of its own.
+	signOfRn := m.copyToTmp(signBitReg)
 
 	// Clear the sign bit of dst via AND with the non-sign bit mask.
+	nonSignBitReg := m.c.AllocateVReg(x.Type())
+	m.lowerFconst(nonSignBitReg, ^signMask, _64)
 	xor := m.allocateInstr().asXmmRmR(opAnd, rm, nonSignBitReg)
 	m.insert(xor)
 
 	// Copy the sign bits of src to dst via OR.
-	or := m.allocateInstr().asXmmRmR(opOr, newOperandReg(signBitReg), nonSignBitReg)
+	or := m.allocateInstr().asXmmRmR(opOr, newOperandReg(signOfRn), nonSignBitReg)
 	m.insert(or)
 
 	m.copyTo(nonSignBitReg, rd)
@@ -3593,21 +3596,24 @@ func (m *machine) lowerVbitselect(instr *ssa.Instruction) {
 	creg := m.getOperand_Reg(m.c.ValueDefinition(c))
 	rd := m.c.VRegOf(instr.Return())
 
+	// Andn between y, c (overwrites c).
 	tmpC := m.copyToTmp(creg.reg())
-	tmpX := m.copyToTmp(rm.reg())
+	pandn := m.allocateInstr()
+	pandn.asXmmRmR(sseOpcodePandn, rn, tmpC)
+	m.insert(pandn)
+	// A register modified in place only holds its value as long as it stays in that register (a spilled one is stored
+	// once, after its definition), and the instructions below might need its register for a reload: move the result
+	// to a register of its own.
+	yAndNotC := m.copyToTmp(tmpC)
 
 	// And between c, x (overwrites x).
+	tmpX := m.copyToTmp(rm.reg())
 	pand := m.allocateInstr()
 	pand.asXmmRmR(sseOpcodePand, creg, tmpX)
 	m.insert(pand)
 
-	// Andn between y, c (overwrites c).
-	pandn := m.allocateInstr()
-	pandn.asXmmRmR(sseOpcodePandn, rn, tmpC)
-	m.insert(pandn)
-
 	por := m.allocateInstr()
-	por.asXmmRmR(sseOpcodePor, newOperandReg(tmpC), tmpX)
+	por.asXmmRmR(sseOpcodePor, newOperandReg(yAndNotC), tmpX)
 	m.insert(por)
 
 	m.copyTo(tmpX, rd)
